@@ -48,6 +48,7 @@ Definition obs_matches (probes : list string) (r : req) (o : robs) : bool :=
 Inductive case :=
 | CaseReq (probes : list string) (cs : list call) (o : robs)
 | CasePair (probes : list string) (ca cb : list call) (oa ob oi : robs) (hi hi_rev : bool)
+| CaseInsert (probes : list string) (cs : list call) (items : list string) (o : robs)   (* Requirement.Insert(items...) *)
 | CaseCompat (tbl : list (string * string)) (vtbl : list (string * list (string * string))) (allow probes : list string)
              (a b : list (string * call)) (compat inter : bool).
 
@@ -97,6 +98,14 @@ Definition check_case (c : case) : list string :=
              else []
          | _ => []
          end
+  | CaseInsert probes cs items o =>
+      (* Insert adds to the value set in place (whatever the complement flag): model = same record, values extended *)
+      let r := build cs in
+      let r' := mkReq (compl r) (dedup (vals r ++ items)) (gte r) (lte r) (minv r) in
+      tag (obs_matches probes r' o) "corr:insert"
+      ++ (if compl r then [] else
+            tag (bools_eqb (o_has o) (map (fun p => (mem p (vals r) || mem p items) && within p (gte r) (lte r)) probes))
+                "oracle:insert-adds-exactly-the-items")
   | CasePair probes ca cb oa ob oi hi hi_rev =>
       let a := build ca in let b := build cb in
       tag (obs_matches probes a oa && obs_matches probes b ob) "corr:requirement"
